@@ -178,9 +178,15 @@ func NewPebbleScanner(dbPath string, opts PebbleScannerOptions) (*PebbleScanner,
 // Path components that do not exist yet cannot be symlinks, so the deepest existing
 // ancestor is resolved and the missing remainder is appended to it.
 func resolveDBLocation(dbPath string) (string, error) {
-	abs, err := filepath.Abs(dbPath)
-	if err != nil {
-		return "", err
+	// The path is made absolute without cleaning it: "link/../db" has to be resolved the way the
+	// kernel resolves it when the database is opened (the link first, then ".."), not lexically.
+	abs := dbPath
+	if !filepath.IsAbs(abs) {
+		wd, err := os.Getwd()
+		if err != nil {
+			return "", err
+		}
+		abs = wd + string(filepath.Separator) + abs
 	}
 	cur, rest := abs, ""
 	for {
@@ -195,11 +201,17 @@ func resolveDBLocation(dbPath string) (string, error) {
 			// cur exists but does not resolve: a dangling symlink whose target we cannot vet.
 			return "", fmt.Errorf("dangling symlink in database path: %s", cur)
 		}
-		parent := filepath.Dir(cur)
-		if parent == cur {
+		// Drop the last component textually (filepath.Dir would clean the remainder).
+		trimmed := strings.TrimRight(cur, string(filepath.Separator))
+		i := strings.LastIndex(trimmed, string(filepath.Separator))
+		if i < 0 || trimmed == "" {
 			return "", fmt.Errorf("no existing ancestor for database path %s", abs)
 		}
-		rest = filepath.Join(filepath.Base(cur), rest)
+		parent := trimmed[:i]
+		if parent == "" {
+			parent = string(filepath.Separator)
+		}
+		rest = filepath.Join(trimmed[i+1:], rest)
 		cur = parent
 	}
 }
